@@ -48,11 +48,14 @@ pub struct PlanOpts {
     pub pairs: u8,
     /// only positions inside GSUB, GPOS, GDEF, kern and morx (C02's corrupt-layout sweep)
     pub layout_only: bool,
+    /// with a head window: tables that are not part of the boilerplate every synthetic seed shares (head, hhea, maxp,
+    /// OS/2, name, post, hmtx, cmap, loca, glyf) get this many bytes instead of `head_bytes` (0 = no special treatment)
+    pub subject_bytes: usize,
 }
 
 impl PlanOpts {
     pub fn full() -> Self {
-        PlanOpts { head_bytes: 0, byte_faults: true, u16_faults: true, u32_faults: true, truncations: true, structure: true, pairs: 0, layout_only: false }
+        PlanOpts { head_bytes: 0, byte_faults: true, u16_faults: true, u32_faults: true, truncations: true, structure: true, pairs: 0, layout_only: false, subject_bytes: 0 }
     }
     pub fn heads(n: usize) -> Self {
         PlanOpts { head_bytes: n, ..Self::full() }
@@ -92,7 +95,9 @@ fn positions(seed: &[u8], opts: &PlanOpts) -> Vec<usize> {
         Some(f) => {
             for e in &f.dir {
                 let s = e.offset as usize;
-                for p in s..s.saturating_add(opts.head_bytes).min(seed.len()) {
+                let boiler = [b"head", b"hhea", b"maxp", b"OS/2", b"name", b"post", b"hmtx", b"cmap", b"loca", b"glyf"].iter().any(|t| otmodel::tag(t) == e.tag);
+                let window = if opts.subject_bytes > 0 && !boiler { opts.subject_bytes.min(e.length as usize) } else { opts.head_bytes };
+                for p in s..s.saturating_add(window).min(seed.len()) {
                     keep[p] = true;
                 }
             }
